@@ -1,13 +1,13 @@
 \* the code as it is (all findings enabled): the properties hold on every behaviour that avoids the finding branches
 SPECIFICATION MCSpec
 CONSTANTS
-  Stores = {"s1", "s2"}
+  Stores = {"s1"}
   Txns = {"t1", "t2"}
-  Findings = {"copyReadsPassive", "staleSnapshot", "logFlagLost", "ffNotIdempotent", "createFailsOnPassive", "failoverNotDurable"}
+  Findings = {"copyReadsPassive", "staleSnapshot", "logFlagLost", "ffNotIdempotent", "createFailsOnPassive", "failoverNotDurable", "copyFailsOnDroppedStore"}
   NoR = 0
   MaxLid = 3
   MaxR = 5
-  Budget <- BudgetQuick
+  Budget <- BudgetTiny
 INVARIANTS TypeOK Faithful FlagPersisted FreshAgrees NoLogLeft
 CONSTRAINT Bounded
 VIEW MCView
